@@ -65,6 +65,8 @@ class World:
         for attr, val in list(m.__dict__.items()):
             if isinstance(val, type(threading.Lock())):
                 setattr(m, attr, SchedLock(sched))
+            elif isinstance(val, type(threading.RLock())):
+                setattr(m, attr, SchedLock(sched, reentrant=True))
         eio = self.d.eio
         orig_send = eio.send_packet
 
